@@ -392,7 +392,8 @@ def run_fixed(ctx):
         word = rng.choice(["End", "END"])
         sep = rng.choice([" ", "\n", ";", "|"])
         post = rng.choice([" ", "\n", ";", ""])
-        ends.append((pre + sep + word + post + junk, pre + sep))
+        # the prefix program ends with ';' so that sutoton::convert's trim_end cannot cut into a final `# ` comment
+        ends.append((pre + sep + word + post + junk, pre + sep + ";"))
     lines = []
     for a, b in ends:
         for k in ("compile", "lex"):
